@@ -20,6 +20,38 @@ enum KeyForm {
     Paren(&'static str),
     /// `KA.clone()` (an expression, munched token by token)
     Expr(&'static str),
+    /// another expression evaluating to the key, of the given token shape (see `SHAPES`)
+    Shaped(&'static str, usize),
+}
+
+/// Token shapes of expression keys: `{K}` is the key text, `{U}` its upper-case form. The macro
+/// munches the key one token tree at a time until it meets the colon, so what matters is the
+/// sequence of token trees: calls with one, two or nested parenthesised arguments, a
+/// parenthesised callee, macro calls, index and tuple-field expressions, method chains, unary
+/// operators, blocks, `if`, casts, paths.
+const SHAPES: [&str; 18] = [
+    "tail(\"x{K}\")",
+    "pick(\"x\", \"{K}\")",
+    "tail((\"x{K}\"))",
+    "(tail)(\"x{K}\")",
+    "format!(\"{}\", \"{K}\")",
+    "format![\"{K}\"]",
+    "[\"x\", \"{K}\"][1]",
+    "(\"x\", \"{K}\").1",
+    "\"{K}\".to_string()",
+    "String::from(\"{K}\")",
+    "\"x{K}\".trim_start_matches('x')",
+    "K{U}.as_str()",
+    "&*K{U}",
+    "*&\"{K}\"",
+    "if true { \"{K}\" } else { \"x\" }",
+    "{ \"{K}\" }",
+    "tail(\"xx{K}\").split_off(1)",
+    "<String as From<&str>>::from(\"{K}\")",
+];
+
+fn shaped(k: &str, shape: usize) -> String {
+    SHAPES[shape].replace("{K}", k).replace("{U}", &k.to_uppercase())
 }
 
 #[derive(Clone, Debug, PartialEq)]
@@ -71,6 +103,7 @@ impl E {
                         KeyForm::Lit(k) => write!(o, "{k:?}").unwrap(),
                         KeyForm::Paren(k) => write!(o, "({k:?})").unwrap(),
                         KeyForm::Expr(k) => write!(o, "K{}.clone()", k.to_uppercase()).unwrap(),
+                        KeyForm::Shaped(k, shape) => o.push_str(&shaped(k, *shape)),
                     }
                     o.push_str(": ");
                     x.rust(o);
@@ -109,7 +142,7 @@ impl E {
                         o.push(',');
                     }
                     let k = match k {
-                        KeyForm::Lit(k) | KeyForm::Paren(k) | KeyForm::Expr(k) => k,
+                        KeyForm::Lit(k) | KeyForm::Paren(k) | KeyForm::Expr(k) | KeyForm::Shaped(k, _) => k,
                     };
                     write!(o, "\"{k}\":").unwrap();
                     x.json(o);
@@ -297,6 +330,19 @@ fn programs(tier: Tier) -> (Vec<E>, J) {
         all.push(E::Arr(vec![E::Obj((0..n).map(|i| (KeyForm::Lit("a"), rich[3 + (i * 5) % 12].clone())).collect(), n % 2 == 0)], false));
         pumped += 3;
     }
+    // expression keys of every token shape, in every position of a small object
+    for shape in 0..SHAPES.len() {
+        for k in ["a", "b"] {
+            let key = || KeyForm::Shaped(k, shape);
+            let other = || KeyForm::Shaped(if k == "a" { "b" } else { "a" }, (shape + 5) % SHAPES.len());
+            all.push(E::Obj(vec![(key(), E::Lit("1"))], false));
+            all.push(E::Obj(vec![(key(), E::Null)], true));
+            all.push(E::Obj(vec![(KeyForm::Lit("b"), E::Lit("1")), (key(), E::Expr)], false));
+            all.push(E::Obj(vec![(key(), E::Arr(vec![E::True], false)), (other(), E::Obj(vec![(key(), E::Null)], false)), (KeyForm::Paren("a"), E::Str("s"))], true));
+            all.push(E::Arr(vec![E::Obj(vec![(key(), E::Obj(vec![(other(), E::Lit("-2"))], true)), (key(), E::False)], false)], false));
+            pumped += 5;
+        }
+    }
     for depth in [5usize, 8, 16, 32, 64] {
         let mut v = E::Lit("1");
         for d in 0..depth {
@@ -334,7 +380,7 @@ fn write_workspace(dir: &Path, progs: &[E], ncrates: usize) -> std::io::Result<V
         )?;
         // line 1..HEADER are the header; program i (global index lo + j) is on line HEADER + 1 + j
         let mut src = String::new();
-        src.push_str("#![recursion_limit = \"16384\"]\n#![allow(unused, clippy::all)]\nuse json_syntax::{json, object::Key, Parse, Value};\nfn main() {\n    let KA: Key = Key::from(\"a\"); let KB: Key = Key::from(\"b\");\n    std::panic::set_hook(Box::new(|_| {})); let mut progs: Vec<(usize, std::thread::Result<Value>, &str)> = Vec::new();\n");
+        src.push_str("#![recursion_limit = \"16384\"]\n#![allow(unused, clippy::all)]\nuse json_syntax::{json, object::Key, Parse, Value};\nfn tail(s: &str) -> String { s[1..].to_string() }\nfn pick(_: &str, b: &str) -> String { b.to_string() }\nfn main() {\n    let KA: Key = Key::from(\"a\"); let KB: Key = Key::from(\"b\");\n    std::panic::set_hook(Box::new(|_| {})); let mut progs: Vec<(usize, std::thread::Result<Value>, &str)> = Vec::new();\n");
         for (j, p) in progs[lo..hi].iter().enumerate() {
             let mut r = String::new();
             p.rust(&mut r);
@@ -509,7 +555,7 @@ fn main() {
         std::fs::write(dir.join("m00/Cargo.toml"), format!("[package]\nname = \"m00\"\nversion = \"0.1.0\"\nedition = \"2021\"\n\n[dependencies]\njson-syntax = {{ path = \"{}\" }}\n", repo())).unwrap();
         std::fs::write(
             dir.join("m00/src/main.rs"),
-            format!("#![recursion_limit = \"16384\"]\n#![allow(unused)]\nuse json_syntax::{{json, object::Key, Parse, Value}};\nfn main() {{\n    let KA: Key = Key::from(\"a\"); let KB: Key = Key::from(\"b\");\n    let v = {rust};\n    let w = Value::parse_str({text:?}).unwrap().0;\n    if v != w {{ println!(\"macro built {{}} but the text parses to {{}}\", v, w); std::process::exit(1); }}\n}}\n"),
+            format!("#![recursion_limit = \"16384\"]\n#![allow(unused)]\nuse json_syntax::{{json, object::Key, Parse, Value}};\nfn tail(s: &str) -> String {{ s[1..].to_string() }}\nfn pick(_: &str, b: &str) -> String {{ b.to_string() }}\nfn main() {{\n    let KA: Key = Key::from(\"a\"); let KB: Key = Key::from(\"b\");\n    let v = {rust};\n    let w = Value::parse_str({text:?}).unwrap().0;\n    if v != w {{ println!(\"macro built {{}} but the text parses to {{}}\", v, w); std::process::exit(1); }}\n}}\n"),
         )
         .unwrap();
         let _ = std::fs::copy(format!("{}/Cargo.lock", repo()), dir.join("Cargo.lock"));
